@@ -14,6 +14,17 @@ from .model import (
 )
 
 
+def _cache_id(model, obj):
+    """
+    ``id(obj)`` as a cache key. The object is kept alive together with the cache:
+    the id of a collected object can be reused by new data, which would then be
+    served the stale cache entry of the old data.
+    """
+    pinned = model.__dict__.setdefault("_cache_pinned", {})
+    pinned[id(obj)] = obj
+    return id(obj)
+
+
 def sum_gradient(fs, var, weight=1.0, trans=tf.identity, args=(), kwargs=None):
     """
     NLL is the sum of trans(f(data)):math:`*`weight; gradient is the derivatives for each variable in ``var``.
@@ -142,7 +153,7 @@ class ModelCachedInt(Model):
         self.cached_amp = {}
 
     def build_cached_int(self, mcdata, mc_weight, batch=65000):
-        mc_id = id(mcdata)
+        mc_id = _cache_id(self, mcdata)
         if isinstance(mcdata, dict):
             mcdata = split_generator(mcdata, batch)
             mc_weight = split_generator(mc_weight, batch)
@@ -191,7 +202,7 @@ class ModelCachedInt(Model):
         :return:
         """
         sw = tf.reduce_sum([tf.reduce_sum(i) for i in weight])
-        data_id = id(data)
+        data_id = _cache_id(self, data)
         data = list(data)
         weight = list(weight)
         if data_id not in self.cached_amp:
@@ -205,7 +216,7 @@ class ModelCachedInt(Model):
             trans=clip_log,
         )
         # print(ln_data, ln_data2, np.allclose(g_ln_data, g_ln_data2))
-        mc_id = id(mcdata)
+        mc_id = _cache_id(self, mcdata)
         if mc_id not in self.cached_int:
             self.build_cached_int(mcdata, mc_weight)
         with tf.GradientTape() as tape:
@@ -261,7 +272,7 @@ class ModelCachedInt(Model):
                 [mc_weight] * data_shape(mcdata), dtype="float64"
             )
             mc_weight = mc_weight / tf.reduce_sum(mc_weight)
-        mc_id = id(mcdata)
+        mc_id = _cache_id(self, mcdata)
         if mc_id not in self.cached_int:
             self.build_cached_int(mcdata, mc_weight)
         with tf.GradientTape(persistent=True) as tape0:
@@ -313,7 +324,7 @@ class ModelCachedAmp(Model):
         self.cached_data = {}
 
     def sum_nll_grad_bacth(self, data):
-        data_id = id(data)
+        data_id = _cache_id(self, data)
         data = list(data)
         weight = [i.get("weight", tf.ones((data_shape(i),))) for i in data]
         if data_id not in self.cached_data:
@@ -332,7 +343,7 @@ class ModelCachedAmp(Model):
         return -ln_data, [-i for i in g_ln_data]
 
     def sum_log_integral_grad_batch(self, mcdata, ndata):
-        mc_id = id(mcdata)
+        mc_id = _cache_id(self, mcdata)
         mcdata = list(mcdata)
         mc_weight = [i["weight"] for i in mcdata]
         if mc_id not in self.cached_data:
@@ -370,7 +381,7 @@ class ModelCachedAmp(Model):
         :return:
         """
         sw = tf.reduce_sum([tf.reduce_sum(i) for i in weight])
-        data_id = id(data)
+        data_id = _cache_id(self, data)
         data = list(data)
         weight = list(weight)
         if data_id not in self.cached_data:
@@ -387,7 +398,7 @@ class ModelCachedAmp(Model):
             trans=clip_log,
         )
         # print(ln_data, ln_data2, np.allclose(g_ln_data, g_ln_data2))
-        mc_id = id(mcdata)
+        mc_id = _cache_id(self, mcdata)
         mcdata = list(mcdata)
         if mc_id not in self.cached_data:
             self.cached_data[mc_id] = [
@@ -434,7 +445,7 @@ class ModelCachedAmp(Model):
         :return:
         """
         sw = tf.reduce_sum([tf.reduce_sum(i) for i in weight])
-        data_id = id(data)
+        data_id = _cache_id(self, data)
         data = list(data)
         weight = list(weight)
         if data_id not in self.cached_data:
@@ -451,7 +462,7 @@ class ModelCachedAmp(Model):
             trans=clip_log,
         )
         # print(ln_data, ln_data2, np.allclose(g_ln_data, g_ln_data2))
-        mc_id = id(mcdata)
+        mc_id = _cache_id(self, mcdata)
         mcdata = list(mcdata)
         if mc_id not in self.cached_data:
             self.cached_data[mc_id] = [
@@ -500,7 +511,7 @@ class ModelCachedAmp(Model):
             self.hess_product_vector_i = [tf.Variable(i) for i in p]
         for i, j in zip(self.hess_product_vector_i, p):
             i.assign(j)
-        data_id = id(data)
+        data_id = _cache_id(self, data)
         data = list(data)
         weight = list(weight)
         sw = tf.reduce_sum([tf.reduce_sum(i) for i in weight])
@@ -510,7 +521,7 @@ class ModelCachedAmp(Model):
                 for i in data
             ]
         # print(ln_data, ln_data2, np.allclose(g_ln_data, g_ln_data2))
-        mc_id = id(mcdata)
+        mc_id = _cache_id(self, mcdata)
         mcdata = list(mcdata)
         if mc_id not in self.cached_data:
             self.cached_data[mc_id] = [
